@@ -7,7 +7,7 @@ import re
 from .. import jmodel as J
 from ..eqmodel import eq_disjuncts, hash_paths, attrs_read
 from ..pymodel import package
-from ..valueflow import Flow, as_map, match, V, show, simp, walk, acc_comp, expand_dict_loops
+from ..valueflow import Flow, as_map, match, V, show, simp, subst, walk, acc_comp, expand_dict_loops
 
 EXPLANATION = (
     "R1 every character that can reach Species.alias / an element macro suffix (characters of the default element and pseudo-element symbols, "
@@ -561,8 +561,38 @@ def _r4_defs(ctx, pkg):
     stored, counts = {}, []
     # ... or in a function of the command's module the table was moved to
     scopes = list(rc.methods.values()) + [g for (f_, _), g in pkg.functions.items() if f_ == RENDER]
-    for mfn in scopes:
-        mfl = Flow(mfn, RENDER)
+    flows = [Flow(mfn, RENDER) for mfn in scopes]
+
+    def at_call_site(mfl, val):
+        """a value written in terms of the parameters of a helper (`def _summary(species, elements)`) in terms of what its (single)
+        call site in the command passes for them"""
+        g = mfl.func
+        params = [a.arg for a in g.args.args]
+        if not any(isinstance(x, tuple) and len(x) == 2 and x[0] == "param" and x[1] in params and x[1] not in ("self", "cls") for x in walk(val)):
+            return val
+        decs = {ast.unparse(d) for d in g.decorator_list}
+        sites = []
+        for ofl in flows:
+            if ofl is mfl:
+                continue
+            vals = [v for lst in ofl.assigns.values() for v, *_ in lst] + [f.value for f in ofl.facts if f.value is not None] + [f.index for f in ofl.facts if f.index is not None]
+            for v in vals:
+                for x in walk(v):
+                    if isinstance(x, tuple) and len(x) == 4 and x[0] == "call" and x[1] == ("global", g.name) and x not in sites:
+                        sites.append(x)
+                    elif isinstance(x, tuple) and len(x) == 5 and x[0] == "meth" and x[2] == g.name and x[1][0] in ("param", "global") and x not in sites:
+                        sites.append(x)
+        if len(sites) != 1:
+            return val
+        c = sites[0]
+        args, kws = (c[2], c[3]) if c[0] == "call" else (c[3], c[4])
+        ps = params if (c[0] == "call" or "staticmethod" in decs) else params[1:]
+        if len(args) > len(ps) or any(a[0] == "star" for a in args) or any(k not in ps for k, _ in kws):
+            return val
+        bind = {("param", p_): a for p_, a in zip(ps, args)}
+        bind.update({("param", k): a for k, a in kws})
+        return simp(subst(val, bind))
+    for mfl in flows:
         for f in mfl.facts:
             if f.kind != "store" or f.index is None:
                 continue
@@ -601,8 +631,21 @@ def _r4_defs(ctx, pkg):
                 ctx.unrec("R4", key, (RENDER, sf.line), f"the list `{val[1]}` is accumulated in a way that is not understood (not one append in one loop)")
                 continue
             val = comp
+        val = at_call_site(mfl, val)
         m = as_map(val)
-        if not m:
+        if m and m[2][0] != "attr":
+            # the right sequence re-ordered / de-duplicated / sliced is understood (and wrong: positions no longer agree)
+            core = m[2]
+            while (core[0] == "call" and core[1] in (("global", "sorted"), ("global", "reversed"), ("global", "set"), ("global", "frozenset")) and core[2]) or \
+                    (core[0] == "sub" and core[2][0] == "slice"):
+                core = core[2][0] if core[0] == "call" else core[1]
+            if core != m[2] and core[0] == "attr" and core[2] == attr:
+                ctx.bad("R4", key, (RENDER, sf.line), f"{nm} is built from net.{attr} re-ordered / filtered ({show(m[2])[:80]}): entry n is no longer the species with index n",
+                        expected=f"[x.{fld} for x in net.{attr}]", found=show(val)[:120])
+                continue
+        if not m or m[2][0] not in ("attr",):
+            # not a map over an attribute of the network (the result of a call that could not be followed, a parameter with several
+            # call sites): where the entries come from is not known
             ctx.unrec("R4", key, (RENDER, sf.line), f"summary[{skey!r}] is not a list built from a network sequence: {show(val)[:100]}")
             continue
         bv, body, base, ifs = m
@@ -612,6 +655,9 @@ def _r4_defs(ctx, pkg):
     for name, f, v in counts:
         attr = "elements" if "elements" in name else "species"
         v = simp(v)
+        owner = next((fl_ for fl_ in flows if any(f_ is f for f_ in fl_.facts)), None)
+        if owner is not None:
+            v = at_call_site(owner, v)
         ok = False
         if v[0] == "call" and v[1] == ("global", "len") and len(v[2]) == 1 and not v[3]:
             # the length of the sequence itself, or of a list with one entry per member of it (unfiltered, one-to-one)
@@ -1589,3 +1635,22 @@ MUTANTS += [
     {"name": "alias-joined-without-charge-run", "file": SP, "old": _FORMAT_OLD, "new": '            self._alias = "".join([\n                "G" if self.is_surface else "",\n                basename,\n'
      '                "I" if self.charge >= 0 else "M" * abs(self.charge),\n            ])\n', "rules": ["R6"]},
 ]
+BENIGN += [{"name": "summary-lists-by-map-attrgetter", "edits": [
+    {"file": RENDER, "old": "import tomlkit\n", "new": "import operator\nimport tomlkit\n"},
+    {"file": RENDER, "old": "        all_species = [x.name for x in net.species]\n        all_alias = [x.alias for x in net.species]\n",
+     "new": '        all_species = list(map(operator.attrgetter("name"), net.species))\n        all_alias = list(map(lambda sp: sp.alias, net.species))\n'}]}]
+MUTANTS += [{"name": "summary-alias-by-map-over-filter", "file": RENDER, "old": "        all_alias = [x.alias for x in net.species]\n",
+             "new": '        all_alias = list(map(lambda sp: sp.alias, filter(lambda sp: not sp.is_surface, net.species)))\n', "rules": ["R4"]}]
+
+
+def _summary_by_parameters(alias_iter="members"):
+    return [
+        {"file": RENDER, "old": _SUMMARY_OLD, "new": "        summary = _summary_of(net.species, net.elements)\n        all_elements = summary[\"list_of_elements\"]\n        all_species = summary[\"list_of_species\"]\n        all_alias = summary[\"list_of_species_alias\"]\n"},
+        {"file": RENDER, "old": _SUMMARY_STORES, "new": ""},
+        {"file": RENDER, "old": _SUMMARY_LISTS, "new": ""},
+        {"file": RENDER, "old": "class RenderCommand(Command):\n", "new": "def _summary_of(members, atoms):\n    table = tomlkit.table()\n    table[\"num_of_elements\"] = len(atoms)\n    table[\"num_of_species\"] = len(members)\n"
+         "    table[\"list_of_elements\"] = [a.name for a in atoms]\n    table[\"list_of_species\"] = [m.name for m in members]\n    table[\"list_of_species_alias\"] = [m.alias for m in " + alias_iter + "]\n    return table\n\n\nclass RenderCommand(Command):\n"}]
+
+
+BENIGN += [{"name": "summary-helper-takes-the-sequences", "edits": _summary_by_parameters()}]
+MUTANTS += [{"name": "summary-helper-alias-from-sorted-members", "edits": _summary_by_parameters("sorted(members)"), "rules": ["R4"]}]
